@@ -158,6 +158,8 @@ class LW(LightweightTask):
         _log("post_init", self)
 
     def execute(self):
+        # what the lightweight task finds when it runs: the object it refers to, as built so far
+        LOG.append(("lw_sees", id(self), "LW", {"cfg_id": id(getattr(self, "cfg", None)), "cfg_keys": sorted(getattr(getattr(self, "cfg", None), "__dict__", {}))}))
         _log("execute", self)
 
 
